@@ -279,7 +279,13 @@ Qed.
 Lemma split_uri_no_escape u : split_uri u <> SEscapes.
 Proof.
   unfold split_uri. destruct (beqb _ _).
-  - destruct (find u [35%N]); destruct (find _ [63%N]); discriminate.
+  - repeat match goal with
+           | |- context [match ?x with _ => _ end] =>
+             lazymatch x with
+             | context [match _ with _ => _ end] => fail
+             | _ => destruct x
+             end
+           end; discriminate.
   - destruct (urlsplit u); discriminate.
 Qed.
 
